@@ -280,6 +280,17 @@ def parse_gt_text(t):
     return al, "|" in t
 
 
+def canon_value(pv):
+    """pysam reports a missing value as None, '.', (None,) or ('.',) depending on the type and on whether the
+    trailing field was dropped in the text; all of these are the VCF missing value."""
+    if pv is None or pv == ".":
+        return None
+    if isinstance(pv, tuple):
+        t = tuple(None if (x is None or x == ".") else x for x in pv)
+        return None if all(x is None for x in t) and len(t) <= 1 else t
+    return pv
+
+
 def parse_vcf(path, text, interner):
     """-> (header lines as (kind, key id, token), records as dicts {fixed: [tokens], calls: [{gt, phased, fields}]}).
     Raw column text and pysam's parsed values are both part of the tokens; GT comes from the raw text and is
@@ -327,7 +338,7 @@ def parse_vcf(path, text, interner):
                             if list(pg) != gt:
                                 raise RuntimeError(f"harness: GT parse disagrees with pysam: {gt} vs {pg} in {ln!r}")
                         else:
-                            pv = pcall[k]
+                            pv = canon_value(pcall[k])
                             fields.append((interner.key(k), interner.token(v + "\x00" + repr(pv))))
                     calls.append({"gt": gt, "phased": phased, "fields": fields})
             recs.append({"fixed": fixed, "calls": calls})
